@@ -29,7 +29,7 @@ M == INSTANCE PegMachine WITH Nodes <- TableNodes, W <- w, Cfg <- cfg
 
 MachineOps == {"seq", "sor", "star", "star_partial", "plus", "opt", "partial", "at", "not_at", "must", "try_catch_return_false", "raise",
                "if_must", "opt_must", "until", "rep", "rep_opt", "rep_min_max", "if_then_else", "enable", "disable", "action",
-               "try_catch_raise_nested", "apply", "apply0", "if_apply", "strict", "star_strict", "control", "state"}
+               "try_catch_raise_nested", "apply", "apply0", "if_apply", "strict", "star_strict", "control", "state", "rematch"}
 RECURSIVE Reach(_, _)
 Reach(todo, seen) ==
    IF todo = {} THEN seen
@@ -38,7 +38,7 @@ Reach(todo, seen) ==
         IN Reach((todo \ {x}) \cup ({ks[i] : i \in DOMAIN ks} \ (seen \cup {x})), seen \cup {x})
 \* the machine models memory inputs (plain and with the depth counter), the action families 0..7 and the operators above
 Supported(ev) ==
-   /\ ev.cls \in {0, 1} /\ ev.xt = 0 /\ ev.af \in 0..7 /\ ev.ib = 0
+   /\ ev.cls \in {0, 1} /\ ev.xt \in {0, 3} /\ ev.af \in 0..7
    /\ \A x \in Reach({ev.g}, {}) :
          /\ (TableNodes[x].iop \in MachineOps \/ M!IsAtom(x))
          /\ (TableNodes[x].iop \in {"strict", "star_strict"} => M!RestOf(TableNodes[x].ikids) # {})
@@ -46,7 +46,7 @@ Supported(ev) ==
          /\ M!AKindOf(x, ev.af) \in 0..7
 
 Init == /\ l = 1 /\ w = <<>> /\ cfg = [g |-> 1, A |-> 1, M |-> 1, af |-> 0, cf |-> 1, eol |-> 3, ib |-> 0, il |-> 1, ic |-> 1, cls |-> 0]
-        /\ fr = <<>> /\ cur = 0 /\ ret = -1 /\ exc = M!NoExc /\ q = <<>> /\ done = -1 /\ aux = [nsid |-> 0, end |-> 0, dep |-> 0]
+        /\ fr = <<>> /\ cur = 0 /\ ret = -1 /\ exc = M!NoExc /\ q = <<>> /\ done = -1 /\ aux = [nsid |-> 0, end |-> 0, dep |-> 0, rm |-> 0]
         /\ skip = TRUE /\ steps = 0
         /\ log = [cases |-> 0, compared |-> 0, skipped |-> 0, limited |-> 0, drift |-> <<>>, ndrift |-> 0]
 
@@ -77,7 +77,7 @@ Next ==
            /\ w' = ev.w
            /\ cfg' = [g |-> ev.g, A |-> ev.A, M |-> ev.M, af |-> ev.af, cf |-> ev.cf, eol |-> ev.eol, ib |-> ev.ib, il |-> ev.il, ic |-> ev.ic, cls |-> ev.cls]
            /\ fr' = <<M!Frame(ev.g, ev.A, ev.M, ev.af, ev.cf)>>
-           /\ cur' = 0 /\ ret' = -1 /\ exc' = M!NoExc /\ q' = <<>> /\ done' = -1 /\ steps' = 0 /\ aux' = [nsid |-> 0, end |-> Len(ev.w), dep |-> 0]
+           /\ cur' = 0 /\ ret' = -1 /\ exc' = M!NoExc /\ q' = <<>> /\ done' = -1 /\ steps' = 0 /\ aux' = [nsid |-> 0, end |-> Len(ev.w), dep |-> 0, rm |-> 0]
            /\ skip' = ~Supported(ev)
            /\ log' = [log EXCEPT !.cases = @ + 1, !.skipped = @ + (IF Supported(ev) THEN 0 ELSE 1)]
            /\ l' = l + 1
